@@ -310,6 +310,32 @@ CHECKS = {
                          "ordinal, exception class) injections per sampled history, "
                          "snapshot/suffix comparison against fault-free and skip twins",
         design="4 (C19)"),
+    "C18": dict(
+        level="exploration",
+        text=("Two phases. (san) The whole runner executes against an ASan+UBSan build of "
+              "ctraits (LD_PRELOAD libasan/libubsan, PYTHONMALLOC=malloc): seeded runs drawn "
+              "from the generators and executors of every other claimed property (their "
+              "oracles ignored), an adversarial world (re-entrant handlers that "
+              "register/unregister handlers, add/remove traits, delete attributes and clear the "
+              "dictionary of the object being notified, edit notifier lists during dispatch, "
+              "values whose __del__ re-enters while C code drops them, raising callbacks, gc "
+              "storm with threshold (1,1,1)) and out-of-range / mistyped / truncated "
+              "CTrait.__getstate__() tuples fed to __setstate__. The oracle is the process: any "
+              "sanitizer report, signal or abort is triaged to the in-flight run, minimised in "
+              "child interpreters and reported with the sanitizer report attached. (ref) Normal "
+              "build: sys.getrefcount deltas of sentinel values and of the objects around every "
+              "op of a reference-counting world (30 op kinds incl. failing validators and "
+              "handlers) must equal the holder count of a model, and 14 closed op cycles "
+              "repeated in three batches of 400 must plateau in sys.getallocatedblocks(). "
+              "Sampling, not proof."),
+        note=("Trusted base: gcc's AddressSanitizer/UBSan, CPython's reference counts and block "
+              "counter. Allocation-failure injection is rejected (DESIGN 4/C18). In-range but "
+              "inconsistent state tuples (type confusion by construction) are outside the "
+              "statement's 'calls through the documented API'."),
+        technique=TECH + "sanitised re-execution of all simulated workloads plus adversarial "
+                         "re-entrancy/gc-storm/corrupted-state worlds; refcount and allocation "
+                         "plateau oracles against a holder-count model",
+        design="4 (C18)"),
 }
 
 NOT_APPLICABLE = {
